@@ -126,7 +126,15 @@ func (encryptor *HashQuery) OnQuery(ctx context.Context, query mysql.OnQueryObje
 				},
 			}
 
+			// decode the literal according to the type it was WRITTEN with (X'..' is hex, '0x41' is a string)
+			// before it is carried on as a 0x... number
+			rawData, decodeErr := encryptor.coder.Decode(rVal, item.Setting)
 			rVal.Type = sqlparser.HexNum
+			if decodeErr == nil {
+				if coded, err := encryptor.coder.Encode(rVal, rawData, item.Setting); err == nil {
+					rVal.Val = coded
+				}
+			}
 		}
 
 		// substring(column, 1, <HMAC_size>) = 'value' ===> substring(column, 1, <HMAC_size>) = <HMAC('value')>
